@@ -1350,7 +1350,13 @@ func (val Value) LessThan(other Value) Value {
 		return (*shortCircuit).RefineNotNull()
 	}
 
-	return BoolVal(val.v.(*big.Float).Cmp(other.v.(*big.Float)) < 0)
+	valF, otherF := val.v.(*big.Float), other.v.(*big.Float)
+	if rawNumberEqual(valF, otherF) {
+		// Two numbers that Equals considers equal are never ordered, even
+		// if their binary representations differ slightly.
+		return False
+	}
+	return BoolVal(valF.Cmp(otherF) < 0)
 }
 
 // GreaterThan returns True if the receiver is greater than the other given
@@ -1389,7 +1395,13 @@ func (val Value) GreaterThan(other Value) Value {
 		return (*shortCircuit).RefineNotNull()
 	}
 
-	return BoolVal(val.v.(*big.Float).Cmp(other.v.(*big.Float)) > 0)
+	valF, otherF := val.v.(*big.Float), other.v.(*big.Float)
+	if rawNumberEqual(valF, otherF) {
+		// Two numbers that Equals considers equal are never ordered, even
+		// if their binary representations differ slightly.
+		return False
+	}
+	return BoolVal(valF.Cmp(otherF) > 0)
 }
 
 // LessThanOrEqualTo is equivalent to LessThan and Equal combined with Or.
